@@ -119,7 +119,11 @@ package runtime
 //@ requires len(p) >= utf8_enc_len(r)
 //@ ensures C05 count: result == utf8_enc_len(r)
 //@ ensures C05 bytes: forall j int :: 0 <= j && j < result ==> p[j] == utf8_enc_byte(r, j)
-//@ modifies bytes(p.data, utf8_enc_len(r))
+//@ ensures C05 byte0: p[0] == utf8_enc_byte(r, 0)
+//@ ensures C05 byte1: result > 1 ==> p[1] == utf8_enc_byte(r, 1)
+//@ ensures C05 byte2: result > 2 ==> p[2] == utf8_enc_byte(r, 2)
+//@ ensures C05 byte3: result > 3 ==> p[3] == utf8_enc_byte(r, 3)
+//@ modifies bytes8(p.data, utf8_enc_len(r))
 
 //@ lemma utf8_roundtrip: C05 forall r rune :: utf8_scalar(r) ==> utf8_dec_rune(utf8_enc_byte(r, 0), utf8_enc_byte(r, 1), utf8_enc_byte(r, 2), utf8_enc_byte(r, 3), utf8_enc_len(r)) == r && utf8_dec_size(utf8_enc_byte(r, 0), utf8_enc_byte(r, 1), utf8_enc_byte(r, 2), utf8_enc_byte(r, 3), utf8_enc_len(r)) == utf8_enc_len(r)
 //@ lemma utf8_invalid_is_fffd: C05 forall r rune :: !utf8_scalar(r) ==> utf8_enc_len(r) == 3 && utf8_enc_byte(r, 0) == 0xEF && utf8_enc_byte(r, 1) == 0xBF && utf8_enc_byte(r, 2) == 0xBD
@@ -758,6 +762,10 @@ package runtime
 // only fresh memory is written. The byte-exact contents are carried by
 // encoderune's contract per rune (the concatenation over all runes is not stated).
 
+// encat(base, off, r): the bytes at base+off.. are the UTF-8 encoding of r (U+FFFD for
+// surrogates, negative and too large values), written out per byte so that it is ground
+//@ macro encat(base, off, r): mem[base + uintptr(off)] == utf8_enc_byte(r, 0) && (utf8_enc_len(r) > 1 ==> mem[base + uintptr(off + 1)] == utf8_enc_byte(r, 1)) && (utf8_enc_len(r) > 2 ==> mem[base + uintptr(off + 2)] == utf8_enc_byte(r, 2)) && (utf8_enc_len(r) > 3 ==> mem[base + uintptr(off + 3)] == utf8_enc_byte(r, 3))
+
 //@ func StringFromRunes
 //@ params rs
 //@ locals data index r n
@@ -765,9 +773,18 @@ package runtime
 //@ requires sane: len(rs) >= 0 && len(rs) <= 1<<40 && cap(rs) >= len(rs) && (len(rs) > 0 ==> valid(rs.data, len(rs)*4))
 //@ loop 1 invariant progress: -1 <= rangeindex && rangeindex < len(rs) && rangeindex + 1 <= index && index <= 4*(rangeindex+1)
 //@ loop 1 invariant buffer: len(data) == 4*len(rs) && cap(data) == 4*len(rs) && mine(data.data, 4*len(rs))
+//@ loop 1 invariant last-len: rangeindex >= 0 ==> index >= utf8_enc_len(rs[rangeindex])
+//@ loop 1 invariant last-b0: rangeindex >= 0 ==> mem[data.data + uintptr(index - utf8_enc_len(rs[rangeindex]))] == utf8_enc_byte(rs[rangeindex], 0)
+//@ loop 1 invariant last-b1: rangeindex >= 0 && utf8_enc_len(rs[rangeindex]) > 1 ==> mem[data.data + uintptr(index - utf8_enc_len(rs[rangeindex]) + 1)] == utf8_enc_byte(rs[rangeindex], 1)
+//@ loop 1 invariant last-b2: rangeindex >= 0 && utf8_enc_len(rs[rangeindex]) > 2 ==> mem[data.data + uintptr(index - utf8_enc_len(rs[rangeindex]) + 2)] == utf8_enc_byte(rs[rangeindex], 2)
+//@ loop 1 invariant last-b3: rangeindex >= 0 && utf8_enc_len(rs[rangeindex]) > 3 ==> mem[data.data + uintptr(index - utf8_enc_len(rs[rangeindex]) + 3)] == utf8_enc_byte(rs[rangeindex], 3)
+//@ loop 1 invariant first: rangeindex >= 0 ==> index >= utf8_enc_len(rs[0]) && (rangeindex == 0 ==> index == utf8_enc_len(rs[0])) && encat(data.data, 0, rs[0])
 //@ loop 1 decreases len(rs) - rangeindex
 //@ ensures C05 empty: len(rs) == 0 ==> result.len == 0 && result.data == nil
 //@ ensures C05 length-bounds: len(rs) > 0 ==> len(rs) <= result.len && result.len <= 4*len(rs)
+//@ ensures C05 single: len(rs) == 1 ==> result.len == utf8_enc_len(rs[0])
+//@ ensures C05 first-rune: len(rs) > 0 ==> result.len >= utf8_enc_len(rs[0]) && encat(result.data, 0, rs[0])
+//@ ensures C05 last-rune: len(rs) > 0 ==> result.len >= utf8_enc_len(rs[len(rs)-1]) && encat(result.data, result.len - utf8_enc_len(rs[len(rs)-1]), rs[len(rs)-1])
 //@ modifies nothing
 
 //@ func StringToRunes
